@@ -69,6 +69,18 @@ theorem ResEq.bind {x y : Res (Env V)} {f g : Env V → Res (Env V)} (h : ResEq 
   | .ok r, .ok r', h => exact hfg r r' h
   | .error e, .error e', h => exact h
 
+theorem ResEq.ok_left {x y : Res (Env V)} (h : ResEq x y) {r : Env V} (hx : x = .ok r) :
+    ∃ r', y = .ok r' ∧ EnvEq r r' := by
+  subst hx
+  match y, h with
+  | .ok r', h => exact ⟨r', rfl, h⟩
+
+theorem ResEq.error_iff {x y : Res (Env V)} (h : ResEq x y) (e : Err) :
+    x = .error e ↔ y = .error e := by
+  match x, y, h with
+  | .ok _, .ok _, _ => simp
+  | .error e1, .error e2, h => cases (h : e1 = e2); rfl
+
 /-! ### `apply` only looks at the declared arguments -/
 
 /-- the values of the declared arguments, `none` if one of them is no key -/
@@ -227,6 +239,12 @@ theorem Spec.congr {base base' : Env V} {cs cs' : List (String × Fn V)} {r : En
   intro hk'
   obtain ⟨c', hc', e⟩ := List.mem_map.1 hk'
   exact hk (List.mem_map.2 ⟨c', (hm c').1 hc', e⟩)
+
+theorem Spec.of_envEq {base : Env V} {cs : List (String × Fn V)} {r r' : Env V}
+    (h : Spec base cs r) (hr : EnvEq r' r) : Spec base cs r' := by
+  refine ⟨fun k hk => (hr k).trans (h.frame k hk), fun c hc => ?_⟩
+  obtain ⟨v, hv, hl⟩ := h.derived c hc
+  exact ⟨v, by rw [apply_congr r' r c.2 fun a _ => hr a]; exact hv, (hr c.1).trans hl⟩
 
 /-- evaluation in dependency order computes a solution -/
 theorem evalAll_topo_spec : ∀ (ts : List (String × Fn V)) (base r : Env V),
@@ -486,5 +504,258 @@ theorem loop_eq_topo : ∀ (fuel : Nat) (res : Env V) (cs ts : List (String × F
       have hi := (List.mem_filter.1 hc).2
       simp only [independent, List.all_eq_true, decide_eq_true_eq] at hi
       exact hi a ha (((hperm.trans hp).map (·.1)).mem_iff.1 hm)
+
+/-! ### acyclicity, circular definitions -/
+
+/-- the dependency graph on the pending keys has no cycle and no self-loop: no non-empty set of
+pending keys each of which reads a member of the set -/
+def Acyclic (cs : List (String × Fn V)) : Prop := ∀ S : List String, S ≠ [] → ¬ Closed S cs
+
+theorem Closed.mono {S : List String} {cs cs' : List (String × Fn V)} (h : Closed S cs)
+    (hm : ∀ c ∈ cs, c ∈ cs') : Closed S cs' := by
+  intro k hk
+  obtain ⟨c, hc, r⟩ := h k hk
+  exact ⟨c, hm c hc, r⟩
+
+/-- when no pending callable is ready, the pending keys are a closed set -/
+theorem closed_keys_of_stuck (cs : List (String × Fn V))
+    (h : cs.filter (independent (cs.map (·.1))) = []) : Closed (cs.map (·.1)) cs := by
+  intro k hk
+  obtain ⟨c, hc, e⟩ := List.mem_map.1 hk
+  refine ⟨c, hc, e, ?_⟩
+  have hni : ¬ independent (cs.map (·.1)) c = true := fun hi =>
+    (List.filter_eq_nil_iff.1 h) c hc hi
+  simp only [independent, List.all_eq_true, decide_eq_true_eq] at hni
+  exact Classical.byContradiction fun hno => hni fun a ha hm => hno ⟨a, ha, hm⟩
+
+theorem topo_no_closed (S : List String) : ∀ ts : List (String × Fn V), (ts.map (·.1)).Nodup →
+    Topo ts → Closed S ts → S = []
+  | [], _, _, h => by
+      cases S with
+      | nil => rfl
+      | cons k _ => obtain ⟨c, hc, _⟩ := h k (by simp); simp at hc
+  | c :: rest, hn, ht, h => by
+      simp only [List.map_cons, List.nodup_cons] at hn
+      have hc : c.1 ∉ S := by
+        intro hcS
+        obtain ⟨c', hc', e, a, ha, haS⟩ := h c.1 hcS
+        have : c' = c := by
+          rcases List.mem_cons.1 hc' with rfl | hr
+          · rfl
+          · exact absurd (List.mem_map.2 ⟨c', hr, e⟩) hn.1
+        subst this
+        obtain ⟨c'', hc'', e'', _⟩ := h a haS
+        exact ht.1 a ha (List.mem_map.2 ⟨c'', hc'', e''⟩)
+      apply topo_no_closed S rest hn.2 ht.2
+      intro k hk
+      obtain ⟨c', hc', e, r⟩ := h k hk
+      rcases List.mem_cons.1 hc' with rfl | hr
+      · exact absurd (e ▸ hk) hc
+      · exact ⟨c', hr, e, r⟩
+
+theorem exists_topo_of_acyclic : ∀ (n : Nat) (cs : List (String × Fn V)), cs.length ≤ n →
+    Acyclic cs → ∃ ts, ts.Perm cs ∧ Topo ts := by
+  intro n
+  induction n with
+  | zero =>
+    intro cs hl _
+    have : cs = [] := List.eq_nil_of_length_eq_zero (by omega)
+    exact ⟨[], by simp [this], trivial⟩
+  | succ n ih =>
+    intro cs hl hac
+    cases hcs : cs with
+    | nil => exact ⟨[], List.Perm.refl _, trivial⟩
+    | cons c0 cs0 =>
+      rw [← hcs]
+      have hE : (cs.filter (independent (cs.map (·.1)))).isEmpty = false := by
+        cases h : cs.filter (independent (cs.map (·.1))) with
+        | cons _ _ => rfl
+        | nil =>
+          exact absurd (closed_keys_of_stuck cs h) (hac _ (by simp [hcs]))
+      have hlt := length_rest_lt cs hE
+      obtain ⟨ts', hp', ht'⟩ := ih (cs.filter fun c => !independent (cs.map (·.1)) c) (by omega)
+        (fun S hS hcl => hac S hS (hcl.mono fun c hc => (List.mem_filter.1 hc).1))
+      have hperm : (cs.filter (independent (cs.map (·.1))) ++ ts').Perm cs :=
+        (List.Perm.append_left _ hp').trans (List.filter_append_perm _ cs)
+      refine ⟨_, hperm, Topo.append ts' ht' _ ?_⟩
+      intro c hc a ha hm
+      have hi := (List.mem_filter.1 hc).2
+      simp only [independent, List.all_eq_true, decide_eq_true_eq] at hi
+      exact hi a ha ((hperm.map (·.1)).mem_iff.1 hm)
+
+/-- acyclic without self-loops = the definitions can be put in dependency order -/
+theorem acyclic_iff_exists_topo (cs : List (String × Fn V)) (hn : (cs.map (·.1)).Nodup) :
+    Acyclic cs ↔ ∃ ts, ts.Perm cs ∧ Topo ts := by
+  constructor
+  · exact exists_topo_of_acyclic cs.length cs (Nat.le_refl _)
+  · rintro ⟨ts, hp, ht⟩ S hS hcl
+    exact hS (topo_no_closed S ts ((hp.map _).nodup_iff.2 hn) ht
+      (hcl.mono fun c hc => hp.mem_iff.2 hc))
+
+theorem loop_err : ∀ (fuel : Nat) (res : Env V) (cs : List (String × Fn V)) (e : Err),
+    loop fuel res cs = .error e → e = .value ∨ e = .type := by
+  intro fuel
+  induction fuel with
+  | zero => intro res cs e h; exact Or.inr (evalAll_err cs res e h)
+  | succ fuel ih =>
+    intro res cs e h
+    simp only [loop] at h
+    split at h
+    · exact Or.inr (evalAll_err cs res e h)
+    · split at h
+      · cases h; exact Or.inl rfl
+      · cases hr : evalAll res (cs.filter (independent (cs.map (·.1)))) with
+        | error e' => rw [hr] at h; cases h; exact Or.inr (evalAll_err _ res _ hr)
+        | ok r => rw [hr] at h; exact ih r _ e h
+
+theorem two_keys_of_length {cs : List (String × Fn V)} (hn : (cs.map (·.1)).Nodup)
+    (h2 : ¬ cs.length ≤ 1) : ∃ a b, a ∈ cs.map (·.1) ∧ b ∈ cs.map (·.1) ∧ a ≠ b := by
+  match cs, hn, h2 with
+  | [], _, h2 => simp at h2
+  | [_], _, h2 => simp at h2
+  | c :: c' :: _, hn, _ =>
+    refine ⟨c.1, c'.1, by simp, by simp, ?_⟩
+    simp only [List.map_cons, List.nodup_cons, List.mem_cons, not_or] at hn
+    exact hn.1.1
+
+/-- `ValueError` is raised only for a circular definition: some set of at least two pending keys is
+closed under "reads a member of the set" -/
+theorem loop_value_closed : ∀ (fuel : Nat) (res : Env V) (cs : List (String × Fn V)),
+    (cs.map (·.1)).Nodup → loop fuel res cs = .error .value →
+    ∃ (S : List String) (a b : String), a ∈ S ∧ b ∈ S ∧ a ≠ b ∧ Closed S cs := by
+  intro fuel
+  induction fuel with
+  | zero => intro res cs _ h; cases evalAll_err cs res _ h
+  | succ fuel ih =>
+    intro res cs hn h
+    simp only [loop] at h
+    split at h
+    · cases evalAll_err cs res _ h
+    · rename_i h2
+      split at h
+      · rename_i hE
+        obtain ⟨a, b, ha, hb, hab⟩ := two_keys_of_length hn h2
+        exact ⟨_, a, b, ha, hb, hab, closed_keys_of_stuck cs (List.isEmpty_iff.1 hE)⟩
+      · cases hr : evalAll res (cs.filter (independent (cs.map (·.1)))) with
+        | error e' => rw [hr] at h; cases h; cases evalAll_err _ res _ hr
+        | ok r =>
+          rw [hr] at h
+          obtain ⟨S, a, b, ha, hb, hab, hcl⟩ := ih r _ (nodup_keys_filter _ cs hn) h
+          exact ⟨S, a, b, ha, hb, hab, hcl.mono fun c hc => (List.mem_filter.1 hc).1⟩
+
+/-- every declared argument is a pending key other than the callable's own, or a key of the mapping -/
+def WellScoped (res : Env V) (cs : List (String × Fn V)) : Prop :=
+  ∀ c ∈ cs, ∀ a ∈ c.2.args, (a ∈ cs.map (·.1) ∧ a ≠ c.1) ∨ lookup a res ≠ none
+
+theorem evalAll_ok_of_present : ∀ (xs : List (String × Fn V)) (res : Env V),
+    (∀ c ∈ xs, ∀ a ∈ c.2.args, lookup a res ≠ none) →
+    ∃ r, evalAll res xs = .ok r ∧ (∀ k, lookup k res ≠ none → lookup k r ≠ none) ∧
+      ∀ c ∈ xs, lookup c.1 r ≠ none
+  | [], res, _ => ⟨res, rfl, fun _ h => h, fun c hc => by simp at hc⟩
+  | (k, f) :: xs, res, h => by
+      cases hv : apply res f with
+      | error e =>
+        obtain ⟨_, a, ha, hl⟩ := (apply_error_iff res f e).1 hv
+        exact absurd hl (h (k, f) (by simp) a ha)
+      | ok v =>
+        have hmono : ∀ j, lookup j res ≠ none → lookup j (set k v res) ≠ none := by
+          intro j hj; rw [lookup_set]; split <;> simp [hj]
+        obtain ⟨r, hr, hk, hd⟩ := evalAll_ok_of_present xs (set k v res)
+          fun c hc a ha => hmono a (h c (by simp [hc]) a ha)
+        refine ⟨r, by rw [evalAll_cons, hv]; exact hr, fun j hj => hk j (hmono j hj), ?_⟩
+        intro c hc
+        rcases List.mem_cons.1 hc with rfl | hc
+        · exact hk _ (by rw [lookup_set]; simp)
+        · exact hd c hc
+
+/-- with every declared argument in scope no round raises `TypeError` -/
+theorem loop_no_type_error : ∀ (fuel : Nat) (res : Env V) (cs : List (String × Fn V)),
+    cs.length ≤ fuel → WellScoped res cs → loop fuel res cs ≠ .error .type := by
+  intro fuel
+  induction fuel with
+  | zero =>
+    intro res cs hl _
+    have : cs = [] := List.eq_nil_of_length_eq_zero (by omega)
+    subst this
+    simp [loop, evalAll, pure, Except.pure]
+  | succ fuel ih =>
+    intro res cs hl hw
+    simp only [loop]
+    split
+    · rename_i h1
+      match cs, h1, hw with
+      | [], _, _ => simp [evalAll, pure, Except.pure]
+      | [c], _, hw =>
+        obtain ⟨r, hr, _⟩ := evalAll_ok_of_present [c] res (by
+          intro c' hc' a ha
+          rw [List.mem_singleton] at hc'
+          subst hc'
+          rcases hw c' (by simp) a ha with ⟨hm, hne⟩ | hp
+          · simp at hm; exact absurd hm hne
+          · exact hp)
+        rw [hr]; simp
+      | _ :: _ :: _, h1, _ => simp at h1
+    · split
+      · intro h; cases h
+      · rename_i hE
+        obtain ⟨r, hr, hk, hd⟩ := evalAll_ok_of_present
+          (cs.filter (independent (cs.map (·.1)))) res (by
+            intro c hc a ha
+            obtain ⟨hc, hi⟩ := List.mem_filter.1 hc
+            simp only [independent, List.all_eq_true, decide_eq_true_eq] at hi
+            rcases hw c hc a ha with ⟨hm, _⟩ | hp
+            · exact absurd hm (hi a ha)
+            · exact hp)
+        rw [hr]
+        apply ih r _
+        · have := length_rest_lt cs (by simpa using hE); omega
+        · intro c hc a ha
+          have hc0 := (List.mem_filter.1 hc).1
+          rcases hw c hc0 a ha with ⟨hm, hne⟩ | hp
+          · obtain ⟨c', hc', e⟩ := List.mem_map.1 hm
+            by_cases hi : independent (cs.map (·.1)) c' = true
+            · right; rw [← e]; exact hd c' (List.mem_filter.2 ⟨hc', hi⟩)
+            · left
+              exact ⟨List.mem_map.2 ⟨c', List.mem_filter.2 ⟨hc', by simpa using hi⟩, e⟩, hne⟩
+          · exact Or.inr (hk a hp)
+
+/-- insertion order of an association list with distinct keys does not matter to `lookup` -/
+theorem lookup_eq_some_iff_mem (k : String) (v : V) : ∀ l : List (String × V), (l.map (·.1)).Nodup →
+    (lookup k l = some v ↔ (k, v) ∈ l)
+  | [], _ => by simp [lookup]
+  | (j, w) :: l, hn => by
+      simp only [List.map_cons, List.nodup_cons] at hn
+      simp only [lookup, List.mem_cons, Prod.mk.injEq]
+      by_cases hk : k = j
+      · subst hk
+        simp only [if_true, Option.some.injEq, true_and]
+        constructor
+        · intro e; exact Or.inl e.symm
+        · rintro (e | hm)
+          · exact e.symm
+          · exact absurd (List.mem_map.2 ⟨(k, v), hm, rfl⟩) hn.1
+      · simp only [hk, if_false, false_and, false_or]
+        exact lookup_eq_some_iff_mem k v l hn.2
+
+theorem lookup_perm (k : String) {l l' : List (String × V)} (hn : (l.map (·.1)).Nodup)
+    (hp : l.Perm l') : lookup k l = lookup k l' := by
+  have hn' : (l'.map (·.1)).Nodup := (hp.map _).nodup_iff.1 hn
+  cases h : lookup k l' with
+  | some v =>
+    exact (lookup_eq_some_iff_mem k v l hn).2 (hp.mem_iff.2 ((lookup_eq_some_iff_mem k v l' hn').1 h))
+  | none =>
+    cases h' : lookup k l with
+    | none => rfl
+    | some v =>
+      have := (lookup_eq_some_iff_mem k v l' hn').2 (hp.mem_iff.1 ((lookup_eq_some_iff_mem k v l hn).1 h'))
+      rw [h] at this; cases this
+
+/-- `res.update(consts)` does not depend on the order of the (distinct) keywords -/
+theorem setAll_perm (d : Env V) {consts consts' : Env V} (hn : (consts.map (·.1)).Nodup)
+    (hp : consts.Perm consts') : EnvEq (setAll d consts) (setAll d consts') := by
+  intro k
+  rw [lookup_setAll, lookup_setAll,
+    lookup_perm k (((List.reverse_perm consts).map _).nodup_iff.2 hn)
+      (((List.reverse_perm consts).trans hp).trans (List.reverse_perm consts').symm)]
 
 end Pyg.DictCall
